@@ -34,7 +34,7 @@ func TestMain(m *testing.M) {
 		os.Exit(0)
 	}
 	harness.Describe(
-		"(i) ranges.Gaps(total=[0,T), rs): every ordered tuple of at most 3 ranges inside [0,T] for every T <= 12 (exhaustive, every run), rapid-drawn sets of up to 14 ranges over buffers of up to 300 bits (overlapping, nested, empty, adjacent, one bit apart, unsorted, duplicated), compared with a bitmap reference; (ii) every corpus (file, format) pair decoded with gap filling, rapid-drawn mutants of them (worker process), rapid-generated decoder programs: for every buffer root produced by a gap filling decode the gap fields must be exactly the bit runs no other leaf of that buffer covers, no gap may overlap a leaf of the decode that produced it, and a gap's content must be the buffer bits of its range. Non-trivial: (i) the ranges leave at least one hole and at least two of them overlap or touch; (ii) the tree has at least one gap field with bits.",
+		"(i) ranges.Gaps(total=[0,T), rs): every ordered tuple of at most 3 ranges inside [0,T] for every T <= 12 (exhaustive, every run), rapid-drawn sets of up to 14 ranges over buffers of up to 300 bits (overlapping, nested, empty, adjacent, one bit apart, unsorted, duplicated), compared with a bitmap reference; (ii) every corpus (file, format) pair decoded with gap filling, rapid-drawn mutants of them (worker process), rapid-generated decoder programs: for every buffer root produced by a gap filling decode the gap fields must be exactly the bit runs no other leaf of that buffer covers, no gap may overlap a leaf of the decode that produced it, and a gap's content must be the buffer bits of its range. Non-trivial: (i) the ranges leave at least one hole and at least two of them overlap or touch; (ii) the tree has at least one gap field with bits. Sub-range decodes (Options.Range, bit-granular): exactly the decoded range is to be covered; a top value that is one leaf (bits, bytes, text formats) must cover the decoded range itself. The clause about gaps of a nested decode lying over outer fields applies to unmodified, unforced, successful decodes only.",
 		"Gaps is only called with total.Start == 0 by fq; other totals are not generated",
 		"a gap field of length zero (fq emits one for a buffer without any leaf bits) is ignored",
 		"nested buffer roots made by FieldStruct/ArrayRootBitBufFn are not gap filled and therefore not checked for coverage",
